@@ -51,7 +51,7 @@ Definition at_this (f : nat) (o : opts) (chain : list (list etok)) (x : str) (pr
       | _, _ => mkso [] [] w [] false
       end
   | None =>
-      let head := [mke GFree (TAt x)] ++ at_prelude_spec o prelude in
+      let head := [mke GFree (TAt x)] ++ at_prelude_spec o true prelude in
       match term with
       | Some (Block _ _ body _ _) =>
           if ideal_contain x then
@@ -108,8 +108,8 @@ Proof.
         try (destruct tt); destruct a1; destruct a2; split; reflexivity.
     + destruct term as [[tt tp|bo bp bb be bc]|]; try (split; reflexivity).
       destruct (ideal_contain s); [|split; reflexivity].
-      destruct (IH o (c1 ++ [([mke GFree (TAt s)] ++ at_prelude_spec o prelude) ++ [mke GFree TCurly]])
-                   (c2 ++ [([mke GFree (TAt s)] ++ at_prelude_spec o prelude) ++ [mke GFree TCurly]]) bb false false) as [C D].
+      destruct (IH o (c1 ++ [([mke GFree (TAt s)] ++ at_prelude_spec o true prelude) ++ [mke GFree TCurly]])
+                   (c2 ++ [([mke GFree (TAt s)] ++ at_prelude_spec o true prelude) ++ [mke GFree TCurly]]) bb false false) as [C D].
       cbn [so_normal so_complete]. rewrite C, D. split; reflexivity.
   - unfold q_branch. destruct (take_prelude false (x :: r)) as [[prelude term] rest].
     destruct (IH o c1 c2 rest false false) as [A B].
@@ -180,7 +180,7 @@ Definition term_spec (o : opts) (contain : bool) (inner : list node -> list etok
   | Leaf t _ => [mke GFree t]
   end.
 
-Lemma at_prelude_spec_cons : forall o x r, at_prelude_spec o (x :: r) = at_prelude_spec o [x] ++ at_prelude_spec o r.
+Lemma at_prelude_spec_cons : forall o lay x r, at_prelude_spec o lay (x :: r) = at_prelude_spec o lay [x] ++ at_prelude_spec o lay r.
 Proof.
   intros. cbn [at_prelude_spec]. destruct (is_ws_or_comment (node_tok x)); [reflexivity|].
   rewrite app_nil_r. reflexivity.
@@ -218,7 +218,7 @@ Lemma at_prelude_vs_spec : forall l st prelude tm rest,
   take_prelude true l = (prelude, Some tm, rest) -> no_bare_rpx prelude = true ->
   (forall t p body e c, tm = Block t p body e c -> contain = true -> good body) ->
   fst (at_prelude o rec contain mark l st) = rest /\
-  SExt (eshp (at_prelude_spec o prelude ++ term_spec o contain inner tm)) st
+  SExt (eshp (at_prelude_spec o true prelude ++ term_spec o contain inner tm)) st
        (snd (at_prelude o rec contain mark l st)).
 Proof.
   induction l as [|x r IH]; intros st prelude tm rest Hs Hu E Hb Hg; [discriminate E|].
@@ -228,15 +228,15 @@ Proof.
   (* the token is passed on to the rest of the prelude *)
   assert (Go : forall st1 X,
              (prelude, Some tm, rest) = (x :: p', t', rest') ->
-             SExt X st st1 -> eshp (at_prelude_spec o [x]) = X ->
+             SExt X st st1 -> eshp (at_prelude_spec o true [x]) = X ->
              fst (at_prelude o rec contain mark r st1) = rest /\
-             SExt (eshp (at_prelude_spec o prelude ++ term_spec o contain inner tm)) st
+             SExt (eshp (at_prelude_spec o true prelude ++ term_spec o contain inner tm)) st
                   (snd (at_prelude o rec contain mark r st1))).
   { intros st1 X E' HX EX. inversion E'; subst.
     assert (Hu1 : w_using_low st1 = false) by (rewrite (proj1 HX); exact Hu).
     destruct (IH st1 p' tm rest' Hsr Hu1 eq_refl (no_bare_rpx_cons _ _ Hb) Hg) as [A B]. split; [exact A|].
     eapply SExt_eq; [eapply SExt_trans; [exact HX | exact B]|].
-    rewrite (at_prelude_spec_cons o x p'), !eidc_app, app_assoc. reflexivity. }
+    rewrite (at_prelude_spec_cons o true x p'), !eidc_app, app_assoc. reflexivity. }
   destruct (is_ws_or_comment (node_tok x)) eqn:Ew.
   { (* whitespace and comments: skipped by both *)
     destruct x as [t p|open p body e c].
@@ -258,15 +258,19 @@ Proof.
     assert (Blk : forall T, T = open -> is_curly T = false ->
               (prelude, Some tm, rest) = (Block T p body e c :: p', t', rest') ->
               fst (at_prelude o rec contain mark r
-                     (tok_at (cn_body o body true false false (tok_at st T p None)) (close_of T) p None)) = rest /\
-              SExt (eshp (at_prelude_spec o prelude ++ term_spec o contain inner tm)) st
+                     (tok_at (if is_layer_fn T then rpx_body o false body None (tok_at st T p None)
+                              else cn_body o body true false false (tok_at st T p None)) (close_of T) p None)) = rest /\
+              SExt (eshp (at_prelude_spec o true prelude ++ term_spec o contain inner tm)) st
                    (snd (at_prelude o rec contain mark r
-                     (tok_at (cn_body o body true false false (tok_at st T p None)) (close_of T) p None)))).
+                     (tok_at (if is_layer_fn T then rpx_body o false body None (tok_at st T p None)
+                              else cn_body o body true false false (tok_at st T p None)) (close_of T) p None)))).
     { intros T ET HT E'. subst T.
       eapply Go; [exact E' | | cbn [at_prelude_spec]; rewrite Ew, app_nil_r; reflexivity].
-      rewrite !eidc_app.
+      rewrite !eidc_app. cbn [andb].
       eapply SExt_trans; [apply SExt_tok_at|]. eapply SExt_trans; [|apply SExt_tok_at].
-      unfold sel_spec. apply SExt_cn_body; [exact Hsb | reflexivity]. }
+      destruct (is_layer_fn open).
+      - unfold val_spec. apply SExt_rpx_body. exact Hsb.
+      - unfold sel_spec. apply SExt_cn_body; [exact Hsb | reflexivity]. }
     destruct open; try discriminate Ho;
       try (apply Blk; [reflexivity | reflexivity | symmetry; exact E]).
     (* the `{}` block ends the rule *)
@@ -343,16 +347,16 @@ Let after_tail : list node := match tail with Leaf TSemi _ :: r => r | _ => [] e
 Lemma import_media_vs_spec : forall m wpos st,
   shaped m = true -> no_term m = true -> no_bare_rpx m = true ->
   fst (import_media o (m ++ tail) wpos st) = Some after_tail /\
-  SExt (eshp (at_prelude_spec o m)) st (snd (import_media o (m ++ tail) wpos st)).
+  SExt (eshp (at_prelude_spec o false m)) st (snd (import_media o (m ++ tail) wpos st)).
 Proof.
   induction m as [|x r IH]; intros wpos st Hs Hn Hb.
   { cbn [app at_prelude_spec]. unfold after_tail.
     destruct tail_form as [-> | [ps [r ->]]]; cbn [import_media node_tok is_ws_or_comment fst snd]; split; try reflexivity; apply SExt_refl. }
   destruct (shaped_cons _ _ Hs) as [_ Hsr]. pose proof (no_term_cons _ _ Hn) as Hnr.
-  cbn [app import_media]. rewrite (at_prelude_spec_cons o x r), eidc_app.
-  assert (Go : forall st1, SExt (eshp (at_prelude_spec o [x])) st st1 ->
+  cbn [app import_media]. rewrite (at_prelude_spec_cons o false x r), eidc_app.
+  assert (Go : forall st1, SExt (eshp (at_prelude_spec o false [x])) st st1 ->
              fst (import_media o (r ++ tail) wpos st1) = Some after_tail /\
-             SExt (eshp (at_prelude_spec o [x]) ++ eshp (at_prelude_spec o r)) st (snd (import_media o (r ++ tail) wpos st1))).
+             SExt (eshp (at_prelude_spec o false [x]) ++ eshp (at_prelude_spec o false r)) st (snd (import_media o (r ++ tail) wpos st1))).
   { intros st1 H1. destruct (IH wpos st1 Hsr Hnr (no_bare_rpx_cons _ _ Hb)) as [A B]. split; [exact A | eapply SExt_trans; [exact H1 | exact B]]. }
   destruct (is_ws_or_comment (node_tok x)) eqn:Ew.
   { apply Go. cbn [at_prelude_spec]. rewrite Ew. apply SExt_refl. }
@@ -615,14 +619,14 @@ Proof.
     cbn [fst snd] in Em, Hm. subst mr.
     eexists. split; [reflexivity|].
     (* the media part of the specification is not empty: it starts with the identifier / parenthesis *)
-    assert (Hne : at_prelude_spec o (y :: ys) <> []).
+    assert (Hne : at_prelude_spec o false (y :: ys) <> []).
     { destruct y as [ty py|oy py by_ ey cy]; [destruct ty; try contradiction | destruct oy; try contradiction];
         cbn [at_prelude_spec node_tok is_ws_or_comment app]; discriminate. }
-    assert (Et' : toks = conds ++ ([mke GFree (TAt s_media)] ++ at_prelude_spec o (y :: ys) ++ [mke GFree TCurly]) ++ [mke GFree cm] ++
+    assert (Et' : toks = conds ++ ([mke GFree (TAt s_media)] ++ at_prelude_spec o false (y :: ys) ++ [mke GFree TCurly]) ++ [mke GFree cm] ++
                           repeat (mke GFree TCloseCurly) (S k)).
     { destruct y as [ty py|oy py by_ ey cy]; [destruct ty; try contradiction | destruct oy; try contradiction];
         cbn [skip_ws node_tok is_ws_or_comment] in Es;
-        destruct (at_prelude_spec o _) as [|m0 ms]; try (exfalso; apply Hne; reflexivity); inversion Es; reflexivity. }
+        destruct (at_prelude_spec o false _) as [|m0 ms]; try (exfalso; apply Hne; reflexivity); inversion Es; reflexivity. }
     rewrite Et', !eidc_app, eidc_repeat_close.
     eapply SExt_eq; [eapply SExt_trans; [exact Hi|];
                      eapply SExt_trans; [apply (SExt_tok_at st1 (TAt s_media))|]; eapply SExt_trans; [exact Hm|];
